@@ -400,3 +400,109 @@ def lookup_conformance(cases, results, max_cases=None, rnd=None):
                           at_event=reached - a, of=b - a))
         i += bad_idx + 1
     return dict(validated=accepted + len(drift), accepted=accepted, drift=drift, states=states, events=nev)
+
+
+# ---------------------------------------------------------------------------------------------
+# Mkdir2.tla action-level conformance (kernel backend, one or two processes)
+def project_mkdir2(res, case_spec):
+    """relevant syscalls of real mkdir_all calls (openat2 backend) -> TraceMkdir2 events"""
+    cid = str(res.get("id"))
+    calls = case_spec.get("calls", [])
+    procs = case_spec.get("procs", 1)
+    init = snap_event("init", cid, res["init"])
+    by_proc = {}
+    for ci, c in enumerate(calls):
+        by_proc.setdefault(c.get("proc", 0), []).append((ci, c))
+    if any(len(v) != 1 for v in by_proc.values()) or sorted(by_proc) != list(range(procs)):
+        return None
+    init["paths"] = [by_proc[pi][0][1]["path"].split("/") for pi in range(procs)]
+    ids = [i["id"] for i in res["init"]["inodes"]]
+    init["rid"] = max(ids + [4]) + 1
+    out = [init]
+    outs = res.get("out") or []
+    for e in res.get("events", []):
+        who = e.get("who", 0)
+        if e["ev"] == "mark":
+            if e["tag"] == "DONE":
+                ci = by_proc[who][0][0]
+                r = ((outs[who] if who < len(outs) else {}).get("results") or [])
+                r = r[ci] if ci < len(r) else {}
+                en = blank("end", cid)
+                en["who"] = who
+                o = lib_outcome(r)
+                en["ret"] = 0 if o[0] == "ok" else -1
+                en["rid"] = (r.get("id") or 0) if o[0] == "ok" else 0
+                en["flag"] = "" if o[0] == "ok" else str(o[1])
+                out.append(en)
+            continue
+        if e["ev"] == "att":
+            return None
+        if e["ev"] != "sys" or not e.get("rel") or e.get("call") is None:
+            continue
+        s = blank("sys", cid)
+        s["who"] = who
+        s["ret"] = e.get("ret", 0)
+        s["flag"] = ERRNO.get(-e["ret"], str(-e["ret"])) if e.get("ret", 0) < 0 else ""
+        nr = e["nr"]
+        if nr == "openat2" and e.get("dfd_class") == "tree":
+            s.update(nr="openat2", d1=e.get("dfd_id", 0), body=(e.get("path") or "").split("/"), rid=e.get("r_id", 0))
+        elif nr == "mkdirat" and e.get("dfd_class") == "tree":
+            s.update(nr="mkdirat", d1=e.get("dfd_id", 0), n1=e.get("path", ""), rid=e.get("new_id", 0))
+        elif nr == "openat" and e.get("dfd_class") == "tree":
+            s.update(nr="openat", d1=e.get("dfd_id", 0), n1=e.get("path", ""), rid=e.get("r_id", 0))
+        elif nr in ("newfstatat", "statx", "fstat") and e.get("path", "") == "":
+            s.update(nr="fstat", d1=e.get("dfd_id", 0))
+        elif nr == "readlinkat" and e.get("dfd_class") == "proc":
+            s.update(nr="dpath")
+        else:
+            continue
+        out.append(s)
+    out.append(snap_event("snap", cid, res["final"]))
+    return out
+
+
+def trace_conformance(module, cfg, project, todo, batch=100, timeout=600):
+    """validate many recorded cases against a trace specification in batched TLC runs (progress
+    register protocol of TraceLookup); a rejected trace is recorded with its first unmatched event"""
+    accepted, drift, states, nev, inv = 0, [], 0, 0, []
+    todo = [(c, r, project(r, c)) for c, r in todo]
+    todo = [t for t in todo if t[2]]
+    i = 0
+    while i < len(todo):
+        chunk = todo[i:i + batch]
+        spans, evs = [], []
+        for c, r, e in chunk:
+            spans.append((len(evs), len(evs) + len(e), c))
+            evs += e
+        r = run_trace_tlc(module, cfg, evs, timeout=timeout)
+        cons = r["consumed"]
+        states += r["tlc"]["distinct"]
+        if cons is None and not r["tlc"]["violated"]:
+            raise ToolError("%s run failed: %s" % (module, r["tlc"]["out"][-1500:]))
+        if r["tlc"]["violated"]:
+            # an invariant failed on the model state driven by a real trace: locate the case by bisection
+            if len(chunk) == 1:
+                inv.append(dict(case=chunk[0][0]["id"], invariant=r["tlc"]["violated"], meta=chunk[0][0].get("meta")))
+                i += 1
+            else:
+                h = max(1, len(chunk) // 2)
+                sub = trace_conformance(module, cfg, lambda rr, cc: project(rr, cc), [(c, rr) for c, rr, _ in chunk[:h]], batch=h, timeout=timeout)
+                sub2 = trace_conformance(module, cfg, lambda rr, cc: project(rr, cc), [(c, rr) for c, rr, _ in chunk[h:]], batch=len(chunk) - h, timeout=timeout)
+                for s_ in (sub, sub2):
+                    accepted += s_["accepted"]; drift += s_["drift"]; inv += s_["invariant_violations"]; states += s_["states"]; nev += s_["events"]
+                i += len(chunk)
+            continue
+        reached = cons["diameter"]
+        if reached >= len(evs) + 1:
+            accepted += len(chunk)
+            nev += len(evs)
+            i += len(chunk)
+            continue
+        bad_idx = next((k for k, (a, b, c) in enumerate(spans) if a < reached <= b), len(spans) - 1)
+        a, b, c = spans[bad_idx]
+        accepted += bad_idx
+        nev += a
+        drift.append(dict(case=c["id"], meta=c.get("meta"), first_unmatched={k: v for k, v in evs[reached - 1].items() if v not in (0, "", [], False) and k not in ("dents", "inodes")},
+                          at_event=reached - a, of=b - a))
+        i += bad_idx + 1
+    return dict(validated=accepted + len(drift) + len(inv), accepted=accepted, drift=drift, invariant_violations=inv, states=states, events=nev)
